@@ -554,6 +554,30 @@ fn check_merge(or: &Oracle, x: (usize, usize), y: (usize, usize), stage: &Cell<&
     }
 }
 
+/// `merge_spans` builds a span too: whatever it is given - also spans of two different strings, which
+/// its signature allows - it may only return a span on ordered boundary offsets of the string that
+/// span says it is over, and looking at that span must not panic.
+fn check_merge_cross(text_a: &str, text_b: &str, x: (usize, usize), y: (usize, usize), stage: &Cell<&'static str>, out: &mut Vec<Finding>) {
+    stage.set("merge_spans(two inputs)");
+    let (Some(sx), Some(sy)) = (Span::new(text_a, x.0, x.1), Span::new(text_b, y.0, y.1)) else { return };
+    for (first, second, ta) in [(&sx, &sy, text_a), (&sy, &sx, text_b)] {
+        if let Some(m) = pest::merge_spans(first, second) {
+            let inp = m.get_input();
+            let ok = m.start() <= m.end() && m.end() <= inp.len() && inp.is_char_boundary(m.start()) && inp.is_char_boundary(m.end());
+            if !ok || (inp != text_a && inp != text_b) {
+                finding(out, "merge_spans_two_inputs", json!({"x": [x.0, x.1], "y": [y.0, y.1], "other_text": text_b, "first_text": ta,
+                    "merged": "None, or a span on ordered char boundaries of its own input"}), json!({"start": m.start(), "end": m.end(), "input_len": inp.len()}));
+                continue;
+            }
+            stage.set("merge_spans(two inputs): as_str/lines/line_col of the result");
+            let _ = m.as_str().len();
+            let _ = m.lines().count();
+            let _ = m.start_pos().line_col();
+            let _ = m.end_pos().line_col();
+        }
+    }
+}
+
 // ------------------------------------------------------------------------------------------
 // driver side
 
@@ -602,6 +626,21 @@ impl Ctx {
         }
         if !fs.is_empty() {
             self.report(rep, or.text, a, b, "span", fs);
+        }
+    }
+
+    fn merge_cross(&mut self, rep: &mut Report, text_a: &str, text_b: &str, x: (usize, usize), y: (usize, usize)) {
+        self.evaluations += 1;
+        let stage = Cell::new("");
+        let mut fs = vec![];
+        let r = catch_unwind(AssertUnwindSafe(|| check_merge_cross(text_a, text_b, x, y, &stage, &mut fs)));
+        if let Err(p) = r {
+            finding(&mut fs, "no_panic", json!({"no panic": true, "x": [x.0, x.1], "y": [y.0, y.1], "other_text": text_b}),
+                    json!({"panic": vmon::pestrun::panic_message(&p), "in": stage.get()}));
+        }
+        if !fs.is_empty() {
+            rep.count("merge_spans_two_inputs_findings");
+            self.report(rep, text_a, x.0, x.1, "merge_spans_two_inputs", fs);
         }
     }
 
@@ -695,6 +734,17 @@ fn exhaustive_text(ctx: &mut Ctx, rep: &mut Report, text: &str, merge_all: bool)
         for x in &spans {
             for y in &spans {
                 ctx.merge(rep, &or, *x, *y);
+            }
+        }
+        // the same spans against every span of a few other strings (other lengths, other boundaries)
+        for other in ["ab\ncd", "日本語 text", "é\r\n🎈", "", "xxxxxxxxxxxxxxxxxxxxxxxx"] {
+            let m = other.len();
+            let ospans: Vec<(usize, usize)> =
+                (0..=m).flat_map(|a| (a..=m).map(move |b| (a, b))).filter(|(a, b)| other.is_char_boundary(*a) && other.is_char_boundary(*b)).collect();
+            for x in &spans {
+                for y in ospans.iter().step_by(1 + ospans.len() / 40) {
+                    ctx.merge_cross(rep, or.text, other, *x, *y);
+                }
             }
         }
     }
